@@ -576,13 +576,14 @@ def rule_names(check):
     names = [x for x in hir.walk(inv.body) if hir.is_call(x) and hir.callee_name(x) == "new" and "IdentName" in x["callee"]["path"]]
     ok = len(names) == 1 and all(r[0] == "param" and r[2] == 0 for r, p in pv.origins(inv, hir.call_args(names[0])[0]))
     check.expect(ok, R, R + "/member-prop", hir.loc(inv.rec), "member property = the method name parameter", "the emitted member property is not the method name parameter")
-    ids = [x for x in hir.walk(inv.body) if x.get("k") == "Struct" and (x["res"].get("path") or "").endswith("swc_ecma_ast::Ident")]
     ns_ok = False
-    for x in ids:
-        for fl in x["fields"]:
-            if fl["name"] == "sym":
-                o = pv.origins(inv, fl["e"])
-                ns_ok = all(r[0] == "const" and r[1].endswith("DD_GLOBAL_NAMESPACE") for r, p in o)
+    for h_ in prog.flat(inv, 2):
+        # the identifier may be built by a constructor helper: its name is then what inv passes for it
+        for x in [x for x in hir.walk(h_.body) if x.get("k") == "Struct" and (x["res"].get("path") or "").endswith("swc_ecma_ast::Ident")]:
+            for fl in x["fields"]:
+                if fl["name"] == "sym":
+                    o = pv.origins_upto(inv, h_, fl["e"])
+                    ns_ok = bool(o) and all(r[0] == "const" and r[1].endswith("DD_GLOBAL_NAMESPACE") for r, p in o)
     val = prog.const_str("visitor_util::DD_GLOBAL_NAMESPACE")
     check.expect(ns_ok and val == "_ddiast", R, R + "/namespace", hir.loc(inv.rec), "namespace identifier = DD_GLOBAL_NAMESPACE (%r)" % val, "namespace identifier is not the constant _ddiast (%r)" % val)
     users = sorted({f.name for f in prog.user_fns for x in f.nodes() if x.get("k") == "Path" and (x["res"].get("path") or "").endswith("DD_GLOBAL_NAMESPACE")})
